@@ -216,7 +216,7 @@ func main() {
 		}
 	}
 	for _, l := range P.lemmas {
-		if !hasProp(l.Props, *prop) {
+		if !hasProp(l.Props, *prop) && !P.usedLemmas[l.Name] {
 			continue
 		}
 		if filter != nil && !filter.MatchString("lemma "+l.Name) {
